@@ -193,7 +193,24 @@ struct Pres {
 };
 constexpr Pres PRES[] = {{"exact", 0, 0}, {"embedded", 2, 3}};
 
-long long P(std::size_t n) { return n == SMAX ? -1 : (long long)n; }
+long long P(std::size_t n) { return n == SMAX ? -1 : (n > (SMAX >> 1) ? -(long long)(SMAX - n) - 1 : (long long)n); } // SIZE_MAX-k prints as -(k+1)
+
+// Counts far beyond any object.  For strncmp/strncat (and wcs twins) the count only LIMITS the characters examined -
+// the strings end at their terminator - so C defines the call for every such count.  Wide: also the values whose
+// byte count (n * sizeof(wchar_t)) would wrap.
+bool huge(std::size_t n) { return n != SMAX && n >= (SMAX >> 4); }
+void add_huge_counts(std::vector<std::size_t>& v, std::size_t size)
+{
+    v.push_back(2 * size);
+    v.push_back(static_cast<std::size_t>(PTRDIFF_MAX));
+    v.push_back(SMAX / 2 + 1);
+    v.push_back(SMAX - 1);
+    if (sizeof(Ch) > 1) {
+        v.push_back(static_cast<std::size_t>(PTRDIFF_MAX) / sizeof(Ch));
+        v.push_back(SMAX / sizeof(Ch));
+        v.push_back(SMAX / sizeof(Ch) + 1);
+    }
+}
 
 // ------------------------------------------------------------------ operations
 void op_len(Str const& a)
@@ -227,7 +244,7 @@ void op_ncmp(Str const& a, Str const& b, std::size_t n, bool array)
     std::size_t d = first_diff(a, b);
     bool equal    = d == a.size() && d == b.size();
     char sit[96];
-    std::snprintf(sit, sizeof sit, "%s,%s", relation(a, b), n == SMAX ? "n=max" : (n == 0 ? "n=0" : (equal ? (n < d ? "n<len" : (n == d ? "n=len" : "n-past-end")) : (n <= d ? "n-before-diff" : "n-past-diff"))));
+    std::snprintf(sit, sizeof sit, "%s,%s", relation(a, b), n == SMAX ? "n=max" : (huge(n) ? "n=huge" : n == 0 ? "n=0" : (equal ? (n < d ? "n<len" : (n == d ? "n=len" : "n-past-end")) : (n <= d ? "n-before-diff" : "n-past-diff"))));
     if (!array) {
         vfc::Src<Ch> sa(a), sb(b);
         char const* op = OPN(strncmp, wcsncmp);
@@ -342,7 +359,7 @@ void op_cat(Str const& a, Str const& b)
 void op_ncat(Str const& a, Str const& b, std::size_t n, bool array)
 {
     char sit[96];
-    std::snprintf(sit, sizeof sit, "dest-%s,src-%s,%s", emp(a), emp(b), n == SMAX ? "n=max" : (n == 0 ? "n=0" : (n < b.size() ? "n<len" : (n == b.size() ? "n=len" : "n>len"))));
+    std::snprintf(sit, sizeof sit, "dest-%s,src-%s,%s", emp(a), emp(b), n == SMAX ? "n=max" : (huge(n) ? "n=huge" : n == 0 ? "n=0" : (n < b.size() ? "n<len" : (n == b.size() ? "n=len" : "n>len"))));
     std::size_t m      = n < b.size() ? n : b.size();
     std::size_t extent = a.size() + m + 1;
     for (Pres const& p : PRES) {
@@ -619,7 +636,7 @@ void op_alias(Str const& a, std::size_t off, bool swapped, std::vector<std::size
     for (std::size_t n : ns) {
         char const* op = NM("strncmp[alias]", "wcsncmp[alias]");
         std::snprintf(sit, sizeof sit, "%s,%s,%s", kind, relation(x, y),
-            n == SMAX ? "n=max" : (n == 0 ? "n=0" : (equal ? (n < d ? "n<len" : (n == d ? "n=len" : "n-past-end")) : (n <= d ? "n-before-diff" : "n-past-diff"))));
+            n == SMAX ? "n=max" : (huge(n) ? "n=huge" : n == 0 ? "n=0" : (equal ? (n < d ? "n<len" : (n == d ? "n=len" : "n-past-end")) : (n <= d ? "n-before-diff" : "n-past-diff"))));
         vf::crumb(SUBJ, op, sit, "%s n=%lld", args, P(n));
         int g = ref::ncmp(cpx(), cpy(), opaque(n));
         int e = E(strncmp, wcsncmp)(cpx(), cpy(), opaque(n));
@@ -711,8 +728,10 @@ void run_case(vf::Case& c)
         std::size_t mx = a.size() > b.size() ? a.size() : b.size();
         for (std::size_t n = 0; n <= mx + 2; ++n) { ncmps.push_back(n); }
         ncmps.push_back(SMAX);
+        add_huge_counts(ncmps, mx + 1);
         for (std::size_t n = 0; n <= b.size() + 2; ++n) { ncats.push_back(n); }
         ncats.push_back(SMAX);
+        add_huge_counts(ncats, b.size() + 1);
         if (vf::want_sample("pair")) { vf::sample("pair", "a=%s b=%s: every function, every count 0..len+2 and SIZE_MAX", vfc::show(a).c_str(), vfc::show(b).c_str()); }
         std::vector<std::size_t> aoffs, ancmps;
         if (single) {
@@ -720,6 +739,7 @@ void run_case(vf::Case& c)
             for (std::size_t o = 0; o <= a.size(); ++o) { aoffs.push_back(o); } // o == size: the second pointer is the terminator
             for (std::size_t n = 0; n <= a.size() + 2; ++n) { ancmps.push_back(n); }
             ancmps.push_back(SMAX);
+            add_huge_counts(ancmps, a.size() + 1);
         }
         all_ops(a, b, single, sym, A, ncmps, ncats, ncpys, aoffs, ancmps);
         return;
@@ -769,6 +789,9 @@ void run_case(vf::Case& c)
         aoffs.push_back((std::size_t)r.below(a.size()));
     }
     std::vector<std::size_t> ancmps{0, 1, (std::size_t)r.below(a.size() + 3), a.size(), a.size() + 1, SMAX};
+    add_huge_counts(ncmps, mx + 1);
+    add_huge_counts(ncats, b.size() + 1);
+    add_huge_counts(ancmps, a.size() + 1);
     all_ops(a, b, true, sym, A, ncmps, ncats, ncpys, aoffs, ancmps);
 }
 } // namespace
